@@ -20,7 +20,10 @@ RULE = ("op sequences over {open_job(sp), mutate the caller's mapping (top level
         "inode/mtime/ctime signature of the whole scratch tree are taken. quick: seeded random sequences + "
         "prefix sweeps; thorough adds all sequences of length<=4 over a 9-letter alphabet on 3 state points. "
         "non-trivial: the sequence contains an init followed by a reopen in a fresh session, or a prefix lookup "
-        "with >=2 candidate ids; distinct by the op list")
+        "with >=2 candidate ids; distinct by the op list. Every case also varies what the model does not contain: "
+        "how each Project object is obtained (init_project / get_project / constructor; absolute, relative to the cwd, "
+        "with '..', trailing separator), os.chdir between the operations (always inside the scratch directory), and "
+        "the names of the project directory and its parent (glob / shell metacharacters, spaces, non-ASCII)")
 TRUSTED = [
     "float.__repr__ as oracle table (Section variable frepr)",
     "json.loads(json.dumps(v)) = v is built into the file node written by the model (bytes, Some v)",
